@@ -6,6 +6,9 @@ CONSTANTS
   Wipes = {}
   Variants = {"asis", "fixed"}
   Cuts = TRUE
+  SectorSize = 32
+  MaxFaults = 1
+  MaxRetry = 1
   Kinds = {"T2"}
   Sizes = {3}
   Pads = {0, 2}
